@@ -203,7 +203,7 @@ def part_pipe(sh, res):
         res.sample({'shape': name, 'query': text, 'fault_points': 'every stream write 0..W'})
 
 
-SAMPLES = ['é,€\n', '\U0001F600"x"\r\n', 'a,b\r\nж', '"é\r\n€",z\n', 'ab,cd\nef\n', '€€', 'x\n\U0001F600', 'ж#\n#ж\n', '"a""é"\n', 'a é\r\n']
+SAMPLES = ['é,€\n', '\U0001F600"x"\r\n', 'a,b\r\nж', '"é\r\n€",z\n', 'ab,cd\nef\n', '€€', 'x\n\U0001F600', 'ж#\n#ж\n', '"a""é"\n', 'a é\r\n', 'p\nq\rz\n', 'p\rq\r€']
 
 
 def part_badbyte(sh, res):
@@ -234,6 +234,13 @@ def part_badbyte(sh, res):
                 starts = [0] + offs[:-1]
                 if p in starts or (p + 1) in offs:
                     deliveries.append(('pieces', 1024, pieces))
+        if not valid:
+            # text-stream route: the bad byte alone in its piece (so that it is decoded by a later read than everything before it), every iterator chunk size
+            if 0 < p:
+                for cs in range(1, n + 2):
+                    deliveries.append(('textstream', cs, [data[:p], data[p:]]))
+                    if p + 1 < n:
+                        deliveries.append(('textstream', cs, [data[:p], data[p:p + 1], data[p + 1:]]))
         for policy, dlm in (('simple', ','), ('quoted', ','), ('quoted_rfc', ',')):
             for has_header in (False, True):
                 for kind, cs, pieces in deliveries:
@@ -244,7 +251,12 @@ def part_badbyte(sh, res):
                     err, recs = None, None
                     try:
                         stream = io.BytesIO(data) if kind == 'chunk' else PieceBytes(pieces)
-                        it = rc.CSVRecordIterator(stream, 'utf-8', dlm, policy, has_header=has_header, chunk_size=cs)
+                        if kind == 'textstream':
+                            # the caller's own decoding text stream without newline translation (the iterator gets encoding=None and sees CR itself): the undecodable byte surfaces
+                            # inside whichever read() happens to need it, including the one-character look-ahead after a CR
+                            it = rc.CSVRecordIterator(io.TextIOWrapper(io.BufferedReader(PieceBytes(pieces), buffer_size=1), encoding='utf-8', newline='\n'), None, dlm, policy, has_header=has_header, chunk_size=cs)
+                        else:
+                            it = rc.CSVRecordIterator(stream, 'utf-8', dlm, policy, has_header=has_header, chunk_size=cs)
                         recs = it.get_all_records()
                     except eng.RbqlIOHandlingError as e:
                         err = 'io'
@@ -254,6 +266,8 @@ def part_badbyte(sh, res):
                     if not valid:
                         res.nontrivial += 1
                         res.feat('invalid_inputs')
+                        if kind == 'textstream':
+                            res.feat('invalid_inputs_through_own_text_stream')
                         if err != 'io':
                             res.violation('invalid-utf8-not-an-io-error', case, 'RbqlIOHandlingError', err or recs)
                     else:
@@ -436,7 +450,7 @@ def main(tier, seed):
              'states = fault points, transitions = environment calls answered; non-trivial = the fault actually struck before the run ended',
         assumptions=['a broken pipe stays broken (no recovery)', 'validity of a mutated byte string is decided by CPython\'s strict utf-8 codec', 'descriptors are compared through /proc/self/fd after gc.collect()'],
         extra={'shapes': [s[0] for s in shapes()]},
-        min_features={'faults_struck': 400, 'pipe_fault_kind_bare': 6, 'pipe_fault_kind_eshutdown': 6, 'pipe_fault_kind_message_only': 6, 'invalid_inputs': 5000, 'fd_error_paths': 40, 'writer_refusals': 300})
+        min_features={'invalid_inputs_through_own_text_stream': 3000, 'faults_struck': 400, 'pipe_fault_kind_bare': 6, 'pipe_fault_kind_eshutdown': 6, 'pipe_fault_kind_message_only': 6, 'invalid_inputs': 5000, 'fd_error_paths': 40, 'writer_refusals': 300})
 
 
 def replay(rep):
